@@ -55,3 +55,57 @@ package bbc
 // govc:func nextTransmissionId property C12
 //@ assigns nothing
 //@ ensures result == tid + 1
+
+// ---- transmissions (C12): link fragments of one payload ----
+
+// A new incoming transmission exists only for a fragment with the start bit; it takes id, payload, sequence number
+// and end mark from that fragment.
+// govc:func NewIncomingTransmission property C12
+//@ assigns nothing
+//@ ensures (err == nil) == f.StartBit()
+//@ ensures err == nil ==> t != nil && t.TransmissionID == f.TransmissionID() && sameSlice(t.Payload, f.Payload) && t.finished == f.EndBit() && t.prevSequenceNo == f.SequenceNumber()
+
+// The receiver accepts a fragment only if it belongs to this unfinished transmission, carries exactly the successor
+// (mod 16) of the previous sequence number and no start bit; then the payload grows by exactly the fragment's bytes.
+// Anything else (loss, duplicate, reordering of fewer than 16 fragments) is an error and changes nothing.
+// govc:func (*IncomingTransmission).ReadFragment property C12
+//@ assigns t.Payload, t.finished, t.prevSequenceNo
+//@ ensures (err == nil) == (!old(t.finished) && f.TransmissionID() == old(t.TransmissionID) && f.SequenceNumber() == (old(t.prevSequenceNo) + 1) % 16 && !f.StartBit())
+//@ ensures err != nil ==> sameSlice(t.Payload, old(t.Payload)) && t.finished == old(t.finished) && t.prevSequenceNo == old(t.prevSequenceNo)
+//@ ensures err == nil ==> len(t.Payload) == old(len(t.Payload)) + len(f.Payload) && t.finished == f.EndBit() && finished == f.EndBit() && t.prevSequenceNo == f.SequenceNumber()
+//@ ensures err == nil ==> forall i int :: 0 <= i && i < old(len(t.Payload)) ==> t.Payload[i] == old(t.Payload[i])
+//@ ensures err == nil ==> forall i int :: 0 <= i && i < len(f.Payload) ==> t.Payload[old(len(t.Payload)) + i] == old(f.Payload[i])
+//@ ensures t.TransmissionID == old(t.TransmissionID)
+
+// govc:func newPlainOutgoingTransmission property C12
+//@ assigns nothing
+//@ ensures err == nil && t != nil && t.TransmissionID == transmissionID && sameSlice(t.Payload, payload) && t.mtu == mtu - 2 && t.start && t.finished == (len(payload) == 0)
+
+// The sender cuts the next at most (modem MTU - 2) payload bytes: start mark on the first fragment only, end mark
+// exactly on the fragment that exhausts the payload, consecutive sequence numbers mod 16, never the fail bit.
+// govc:func (*OutgoingTransmission).WriteFragment property C12
+//@ requires t.mtu >= 1
+//@ assigns t.Payload, t.finished, t.nextSegmentNo, t.start
+//@ ensures (err == nil) == !old(t.finished)
+//@ ensures err == nil ==> len(f.Payload) <= t.mtu && len(f.Payload) + len(t.Payload) == old(len(t.Payload))
+//@ ensures err == nil ==> forall i int :: 0 <= i && i < len(f.Payload) ==> f.Payload[i] == old(t.Payload[i])
+//@ ensures err == nil ==> forall i int :: 0 <= i && i < len(t.Payload) ==> t.Payload[i] == old(t.Payload[len(f.Payload) + i])
+//@ ensures err == nil ==> f.TransmissionID() == t.TransmissionID && f.SequenceNumber() == (old(t.nextSegmentNo) + 1) % 16 && t.nextSegmentNo == f.SequenceNumber()
+//@ ensures err == nil ==> f.StartBit() == old(t.start) && !t.start && !f.FailBit()
+//@ ensures err == nil ==> f.EndBit() == (len(t.Payload) == 0) && finished == f.EndBit() && t.finished == f.EndBit()
+//@ ensures err == nil && !f.EndBit() ==> len(f.Payload) == t.mtu
+//@ ensures t.TransmissionID == old(t.TransmissionID) && t.mtu == old(t.mtu)
+
+// A fragment that does not continue its transmission makes the connector forget the transmission and report the error.
+// govc:func (*Connector).handleIncomingKnownTransmission property C12
+//@ requires trans != nil && c.transmissions != nil
+//@ assigns mapof(c.transmissions), trans.Payload, trans.finished, trans.prevSequenceNo
+//@ ensures (err == nil) == (!old(trans.finished) && frag.TransmissionID() == old(trans.TransmissionID) && frag.SequenceNumber() == (old(trans.prevSequenceNo) + 1) % 16 && !frag.StartBit())
+//@ ensures err != nil ==> !has(c.transmissions, trans.TransmissionID)
+
+// govc:func (*Connector).handleIncomingNewTransmission property C12
+//@ requires c.transmissions != nil
+//@ assigns mapof(c.transmissions)
+//@ ensures (err == nil) == frag.StartBit()
+//@ ensures err == nil ==> trans != nil && has(c.transmissions, frag.TransmissionID()) && c.transmissions[frag.TransmissionID()] == trans && trans.TransmissionID == frag.TransmissionID()
+//@ ensures err != nil ==> has(c.transmissions, frag.TransmissionID()) == old(has(c.transmissions, frag.TransmissionID()))
